@@ -93,7 +93,15 @@ def points(draw, names, k=3):
     for _ in range(k):
         positive = draw(st.booleans())
         strat = pos_coords() if positive else coords()
-        out.append({n: draw(strat) for n in names})
+        pt = {n: draw(strat) for n in names}
+        if names and draw(st.integers(0, 5)) == 0:
+            # coordinates that are EXACTLY zero (the default start point of every solver): rules written as f * (.. / x) or
+            # exp(b * log(a)) are regular elsewhere and 0 * inf here.  Singular / non-smooth points are filtered by the oracles.
+            k = draw(st.integers(0, len(names) - 1))
+            pt[names[k]] = 0.0
+            if draw(st.booleans()):
+                pt[names[(7 * k + 3) % len(names)]] = 0.0
+        out.append(pt)
     return out
 
 
